@@ -101,17 +101,22 @@ theorem rcl_is_sorted (k : Nat) (hk : 0 < k) (strs : List (List Nat)) (hlen : Le
     (l : RCL) (hb : build k strs = .ok l) : l.isSorted = true ↔ Sorted strs := by
   rw [(built_of_build hk hlen hb).sorted_eq, adjSorted_nil_iff]
 
-/-- `index_of(key)` returns an index holding `key` exactly when `key` was pushed.
-Hypothesis `0 ∉ key ∨ ¬ Sorted strs`: on *sorted* input a key containing NUL can compare equal
-to a block head followed by its terminator and the next bytes (see `nul_probe_false_positive`
-below), so the binary-search path needs a NUL-free key; the scan path does not. -/
+/-- `index_of(key)` returns an index holding `key` exactly when `key` was pushed — for **every**
+key.  (Sorted input: binary search over block heads, then in-block scan; a key containing NUL is
+answered `None` before the search — `rcl_index_of_nul` — and indeed cannot have been pushed.
+Unsorted input: linear scan.) -/
 theorem rcl_index_of (k : Nat) (hk : 0 < k) (strs : List (List Nat)) (hn : NulFree strs)
-    (hlen : LenOK strs) (l : RCL) (hb : build k strs = .ok l) (key : List Nat)
-    (hkey : 0 ∉ key ∨ ¬ Sorted strs) :
+    (hlen : LenOK strs) (l : RCL) (hb : build k strs = .ok l) (key : List Nat) :
     ∃ o, indexOf l key = .ok o ∧
       (∀ i, o = some i → ∃ hi : i < strs.length, strs[i] = key) ∧
       (o = none ↔ key ∉ strs) :=
-  indexOf_spec (built_of_build hk hlen hb) hn hlen key hkey
+  indexOf_spec (built_of_build hk hlen hb) hn hlen key
+
+/-- sorted input, key containing NUL: `None`, decided before any comparison with the data -/
+theorem rcl_index_of_nul (k : Nat) (hk : 0 < k) (strs : List (List Nat)) (hlen : LenOK strs)
+    (l : RCL) (hb : build k strs = .ok l) (hs : Sorted strs) (key : List Nat) (hkey : 0 ∈ key) :
+    indexOf l key = .ok none := by
+  rw [indexOf, if_pos ((rcl_is_sorted k hk strs hlen l hb).2 hs), indexOfSorted_nul l key hkey]
 
 /-- unsorted input: `index_of` is the linear scan and returns the *first* position of `key`
 (any key, NUL bytes included) -/
@@ -144,7 +149,8 @@ theorem rcl_index_of_sorted_contract (k : Nat) (hk : 0 < k) (strs : List (List N
 
 /-- … and the binary search of the core library, run with the comparator closure of
 `index_of_sorted` on the block pointers, returns without panic / out-of-bounds access and
-satisfies that contract (NUL-free key) -/
+satisfies that contract (NUL-free key: the only keys for which `index_of_sorted` reaches the
+search) -/
 theorem rcl_binary_search_contract (k : Nat) (hk : 0 < k) (strs : List (List Nat))
     (hn : NulFree strs) (hlen : LenOK strs) (l : RCL) (hb : build k strs = .ok l)
     (hs : Sorted strs) (key : List Nat) (hkey : 0 ∉ key) :
@@ -163,12 +169,11 @@ theorem rcl_binary_search_no_oob (f : Nat → Out Ordering) (xs : Array Nat)
 
 /-- `contains` is `index_of(..).is_some()` (by definition) and therefore decides membership -/
 theorem rcl_contains (k : Nat) (hk : 0 < k) (strs : List (List Nat)) (hn : NulFree strs)
-    (hlen : LenOK strs) (l : RCL) (hb : build k strs = .ok l) (key : List Nat)
-    (hkey : 0 ∉ key ∨ ¬ Sorted strs) :
+    (hlen : LenOK strs) (l : RCL) (hb : build k strs = .ok l) (key : List Nat) :
     (contains l key = (indexOf l key >>= fun o => pure o.isSome)) ∧
     contains l key = .ok (decide (key ∈ strs)) := by
   refine ⟨rfl, ?_⟩
-  obtain ⟨o, h1, _, h3⟩ := rcl_index_of k hk strs hn hlen l hb key hkey
+  obtain ⟨o, h1, _, h3⟩ := rcl_index_of k hk strs hn hlen l hb key
   rw [contains, h1]
   simp only [bind, Out.bind, pure]
   congr 1
@@ -178,28 +183,35 @@ theorem rcl_contains (k : Nat) (hk : 0 < k) (strs : List (List Nat)) (hn : NulFr
     have : key ∈ strs := Classical.byContradiction fun hnm => by cases h3.2 hnm
     simp [this]
 
-/-! ## why `rcl_index_of` needs a NUL-free key on sorted input (finding)
+/-! ## keys containing NUL (the inputs on which the tree before the fix was wrong)
 
-`strcmp(string, data)` walks `data` as far as `string` is long; a `0` inside `string` matches the
-terminator of a block head and the comparison continues into the *next* stored entry. -/
+Before `index_of_sorted` got its guard, `strcmp(string, data)` let a `0` inside `string` match a
+block head's terminator and went on comparing with the *next* stored entry:
+`["a","b"]`, `k = 1`, `index_of("a\0b")` answered `Some(0)`, `index_of("b\0\0x")` panicked. -/
 
-theorem nulProbe_build :
-    build 1 [[97], [98]] = .ok ⟨1, 2, true, [97, 0, 98, 0], #[0, 2]⟩ := by decide
+def nulList : List (List Nat) := [[0x61], [0x62]]
 
-/-- list `["a", "b"]`, `k = 1`: `index_of("a\0b")` answers `Some(0)` although the string was
-never pushed (and `"a" ≠ "a\0b"`) -/
-theorem nul_probe_false_positive :
-    ∃ l, build 1 [[97], [98]] = .ok l ∧ indexOf l [97, 0, 98] = .ok (some 0) := by
-  refine ⟨_, nulProbe_build, ?_⟩
-  simp [indexOf, indexOfSorted, binarySearchBy, bsLoop, headCmp, Out.readU, sliceFrom, strcmp,
-    strcmpGo, ordNat, indexOfSortedAfter, bind, Out.bind]
+theorem nulList_nulFree : NulFree nulList := by unfold NulFree nulList; decide
+theorem nulList_lenOK : LenOK nulList := by unfold LenOK nulList; decide
+theorem nulList_sorted : Sorted nulList := (adjSorted_nil_iff nulList).1 (by decide)
 
-/-- same list: `index_of("b\0\0x")` panics (safe indexing past the end of `data`) -/
-theorem nul_probe_panic :
-    ∃ l, build 1 [[97], [98]] = .ok l ∧ indexOf l [98, 0, 0, 120] = .panic := by
-  refine ⟨_, nulProbe_build, ?_⟩
-  simp [indexOf, indexOfSorted, binarySearchBy, bsLoop, headCmp, Out.readU, sliceFrom, strcmp,
-    strcmpGo, ordNat, bind, Out.bind]
+theorem nulList_build :
+    build 1 nulList = .ok ⟨1, 2, true, [0x61, 0, 0x62, 0], #[0, 2]⟩ := by decide
+
+/-- `index_of("a\0b")` on `["a","b"]`: absent -/
+theorem nul_probe_absent (l : RCL) (hb : build 1 nulList = .ok l) :
+    indexOf l [0x61, 0, 0x62] = .ok none ∧ contains l [0x61, 0, 0x62] = .ok false :=
+  ⟨rcl_index_of_nul 1 (by decide) nulList nulList_lenOK l hb nulList_sorted _ (by decide),
+   (rcl_contains 1 (by decide) nulList nulList_nulFree nulList_lenOK l hb _).2⟩
+
+/-- `index_of("b\0\0x")` on `["a","b"]`: absent, no panic -/
+theorem nul_probe_no_panic (l : RCL) (hb : build 1 nulList = .ok l) :
+    indexOf l [0x62, 0, 0, 0x78] = .ok none :=
+  rcl_index_of_nul 1 (by decide) nulList nulList_lenOK l hb nulList_sorted _ (by decide)
+
+/-- and the same on the concrete built list (no hypothesis left) -/
+example : ∃ l, build 1 nulList = .ok l ∧ indexOf l [0x61, 0, 0x62] = .ok none :=
+  ⟨_, nulList_build, (nul_probe_absent _ nulList_build).1⟩
 
 /-! ## non-vacuity: the documentation example of the crate (`k = 4`) and an unsorted list -/
 
@@ -231,14 +243,13 @@ example (l : RCL) (hb : build 4 exStrs = .ok l) : l.isSorted = true :=
   (rcl_is_sorted 4 (by decide) exStrs exStrs_lenOK l hb).2 exStrs_sorted
 
 example (l : RCL) (hb : build 4 exStrs = .ok l) : contains l [97, 98, 100] = .ok false :=
-  (rcl_contains 4 (by decide) exStrs exStrs_nulFree exStrs_lenOK l hb [97, 98, 100]
-    (Or.inl (by decide))).2
+  (rcl_contains 4 (by decide) exStrs exStrs_nulFree exStrs_lenOK l hb [97, 98, 100]).2
 
 example (l : RCL) (hb : build 4 exStrs = .ok l) :
     ∃ o, indexOf l [97, 98, 99] = .ok o ∧
       (∀ i, o = some i → ∃ hi : i < exStrs.length, exStrs[i] = [97, 98, 99]) ∧
       (o = none ↔ [97, 98, 99] ∉ exStrs) :=
-  rcl_index_of 4 (by decide) exStrs exStrs_nulFree exStrs_lenOK l hb _ (Or.inl (by decide))
+  rcl_index_of 4 (by decide) exStrs exStrs_nulFree exStrs_lenOK l hb _
 
 def exUnsorted : List (List Nat) := [[98], [97], [98]]
 
